@@ -1,6 +1,7 @@
 package sym
 
 import (
+	"fmt"
 	"golang.org/x/tools/go/ssa"
 )
 
@@ -176,6 +177,19 @@ func (e *Engine) runCoros(st *State) {
 	}
 	e.inRunCoros = true
 	defer func() { e.inRunCoros = false }()
+	if e.CoroRot > 0 && !e.rotAsked {
+		// which party gets to run first in every round is a shape: the schedule family is the
+		// round-robin order rotated by 0..CoroRot positions
+		e.rotAsked = true
+		e.shapeSeq["sched.rot"]++
+		key := "sched.rot#1"
+		v, ok := e.Shape[key]
+		if !ok {
+			panic(&ShapeRequest{Name: key, Lo: 0, Hi: e.CoroRot})
+		}
+		e.ShapeLog = append(e.ShapeLog, fmt.Sprintf("%s=%d", key, v))
+		e.rot = v
+	}
 	fires := 0
 	for round := 0; ; round++ {
 		if round > 400 {
@@ -183,7 +197,7 @@ func (e *Engine) runCoros(st *State) {
 		}
 		progress := false
 		for i := 0; i < len(e.coros); i++ {
-			co := e.coros[i]
+			co := e.coros[(i+e.rot)%len(e.coros)]
 			if co.done {
 				continue
 			}
